@@ -799,3 +799,11 @@ m('c02-cmp-tail-skips-pulled-digit', ['C02', 'C19'], 'no-skipped-element', [
                 if ai == 0 && a_it.all(Zero::is_zero) {""", """            (Some(_), None) => {
                 if a_it.all(Zero::is_zero) {""")],
   'the digit already pulled from a is not checked before the rest is scanned: a = b*10^s + d*10^(s-1) compares Equal')
+# ---- C05 head of the numeral
+m('c05-sign-after-point-accepted', ['C05'], 'sign-only-at-head', [
+  ('src/impl_num.rs', """                if trail.starts_with(&['+', '-'][..]) {
+                    return Err(ParseBigDecimalError::Other(
+                        format!("Unexpected sign after decimal point in '{}'", s)));
+                }
+""", "")],
+  'the repaired defect re-introduced: ".+5" parses as 0.05')
